@@ -38,7 +38,7 @@ func init() {
 	})
 }
 
-var restrict = wprog.Restrict{Bulk: true}
+var restrict = wprog.Restrict{Bulk: true, WrongLength: true}
 
 func Run(e *core.Env) {
 	cfg := wprog.DrawConfig(e.T, &restrict)
@@ -51,6 +51,11 @@ func Run(e *core.Env) {
 		for i := 0; i < v; i++ {
 			e.Probe(k)
 		}
+	}
+	if res.Err != nil && res.ExpectedReject {
+		e.Probe("invalid request refused by the Writer")
+		e.Nontrivial()
+		return
 	}
 	if res.Err != nil {
 		e.Skip("writer rejected " + res.ErrOp)
